@@ -1,6 +1,6 @@
-(* The renormalisation  out * np.sum(img) / np.sum(out)  of lentil.jitter / lentil.smear as the code executes it:
-   when np.sum(out) is zero every sample is 0 * sum(img) / 0 = NaN (numpy emits a RuntimeWarning and returns an
-   all-NaN frame; out >= 0, so a zero total means out is identically zero).  [None] stands for that all-NaN frame.
+(* The renormalisation of lentil.jitter / lentil.smear as the code executes it (after fix a520356):
+       weight = np.sum(out);  if weight == 0: return out;  return out * np.sum(img) / weight
+   out >= 0, so a zero weight means out is identically zero: an empty image stays empty instead of 0 * 0 / 0 = NaN.
    [is0] decides equality with zero on the scalars (exact on the rationals of the execution, classical on C). *)
 From LV Require Export Model.Blur.
 
@@ -11,12 +11,12 @@ Variables sinc gauss : Qc -> S.
 Variable kabs : S -> S.
 Variable kinv : S -> S.
 
-Definition renorm_checked (out img : arr S) : option (arr S) :=
-  if is0 (asum out) then None else Some (renorm kinv out img).
+Definition renorm_checked (out img : arr S) : arr S :=
+  if is0 (asum out) then out else renorm kinv out img.
 
-Definition jitter_checked (img : arr S) (scale pixelscale os : Qc) : option (arr S) :=
+Definition jitter_checked (img : arr S) (scale pixelscale os : Qc) : arr S :=
   renorm_checked (blur kabs (jitter_mul gauss scale pixelscale os (nr img) (nc img)) img) img.
-Definition smear_checked (img : arr S) (distance sn cs pixelscale os : Qc) : option (arr S) :=
+Definition smear_checked (img : arr S) (distance sn cs pixelscale os : Qc) : arr S :=
   renorm_checked (blur kabs (smear_mul sinc distance sn cs pixelscale os (nr img) (nc img)) img) img.
 End Entry.
 Arguments renorm_checked {S}. Arguments jitter_checked {S}. Arguments smear_checked {S}.
